@@ -1,15 +1,18 @@
-#!/usr/bin/env python3
+#!/venv/bin/python
 """Regenerates /verif/MANIFEST.json from the table below (kept valid at all times)."""
 import json, os
 V = os.path.dirname(os.path.dirname(os.path.abspath(__file__)))
 props = [json.loads(l) for l in open(os.path.join(V, 'properties.jsonl'))]
 
-# property -> (technique, level text, level note, design ref)
-CHECKS = {
- 'C13': ('explicit-state enumeration of all sequence pairs up to renaming (restricted-growth strings), real code vs Wagner-Fischer / brute-force substring oracle',
-         'Bounded exhaustive: every pair of sequences with |s|+|t| <= 7 (quick) / 9 (thorough) up to symbol renaming, in four symbol renderings, plus the full cost cube on short pairs and all 1-3-tuples of a summary pool, is executed on the real functions and compared with an independent full-matrix reference. Optimality is a for-all over alignments, so only enumeration against a reference decides it.',
-         'Assumes the functions compare symbols only for equality (renaming invariance); sequences longer than the bound are not explored.', '3/C13'),
-}
+import importlib, pkgutil, sys
+sys.path[0:0] = [V]
+import props as _props
+CHECKS = {}
+for _m in pkgutil.iter_modules(_props.__path__):
+    _mod = importlib.import_module('props.' + _m.name)
+    if hasattr(_mod, 'MANIFEST') and not getattr(_mod, 'DISABLED', False):
+        _x = _mod.MANIFEST
+        CHECKS[_mod.ID] = (_x['technique'], _x['text'], _x['note'], _x['ref'])
 NOT_YET = 'check not yet built in this revision of /verif (planned: DESIGN.md section 3)'
 
 checks, na = [], []
